@@ -269,6 +269,7 @@ ADDED_I = {
     "C07": ["well-formed local SOCKS5-UDP datagrams from one socket to a spread of targets (addresses and names, ports above and below one another)"],
     "C08": ["nodes can be given a descriptor limit that their own open sockets use up; fault: more flows abandoned by their applications toward a silent target than the limit allows (no flood of attacker-held connections in those plans)"],
     "C10": ["resp-early: the reference server speaks first - a sealed, fresh response that echoes a foreign request salt before the application's first byte; nothing of it may be released"],
+    "C11": ["C11late, one plan in eight: the session is a burst of 1100-2500 datagrams sent back to back (more than any queue between the listener and the session's task holds) before the copies arrive; every sampled id of the burst reaches the target exactly once"],
     "C13": ["one plan in five runs after an earlier local connection that sent an unfinished handshake, or a complete request with trailing bytes, and went away"],
     "C15": ["a peer of the server that sends the beginning of a TLS hello / upgrade request / protocol handshake and closes; QUIC plans with a 3-8 s outage of the datagram link after the first second"],
     "C16": ["late-certificate cases (in a process of their own): the certificate file the ssl / quic section names is absent for the first flow and put in place afterwards; the first flow fails, the next one is served"],
